@@ -182,7 +182,7 @@ def check_docs(docs, idle=True, validate=True):
     return runs, problems
 
 
-def numbering_problems(run, rewound_streams=()):
+def numbering_problems(run, rewound_streams=(), only_streams=None):
     """C05: per stream, seq_nums are exactly 1..N with N = num_events (missing key <=> 0)."""
     problems = []
     if run.stop is None:
@@ -192,6 +192,8 @@ def numbering_problems(run, rewound_streams=()):
     for duid, d in run.descriptors.items():
         by_stream.setdefault(d["name"], by_stream.get(d["name"], []))
     for stream, evs in by_stream.items():
+        if only_streams is not None and stream not in only_streams:
+            continue
         seqs = [e["seq_num"] for e in evs]
         n = ne.get(stream, 0)
         uniq = sorted(set(seqs))
@@ -200,6 +202,8 @@ def numbering_problems(run, rewound_streams=()):
         if len(uniq) != n:
             problems.append(("num_events_mismatch", f"stream {stream}: num_events={n} but distinct seq_nums={uniq}"))
     for stream in ne:
+        if only_streams is not None and stream not in only_streams:
+            continue
         if stream not in by_stream and ne[stream] != 0:
             problems.append(("num_events_unknown_stream", f"num_events names stream {stream} with no descriptor"))
     return problems
